@@ -868,8 +868,13 @@ def make_sim_case(rng, tier, idx):
         cand = [k for k in range(n_actions) if not winners or k != winners[-1]] or [0]
         winners.append(rng.choice(cand))
     sched = []
+    high = idx % 3 == 1      # every third simulation uses utilities ABOVE 1 (still with a margin of 0.3)
     for w in winners:
         top = rng.choice([0.8, 0.9, 1.0])
+        if high:
+            top = rng.choice([1.2, 1.3])
+            sched.append([top if i == w else round(rng.uniform(0.7, top - 0.3), 3) for i in range(n_actions)])
+            continue
         sched.append([top if i == w else round(rng.uniform(0.1, top - 0.3), 3) for i in range(n_actions)])
     sim = {"phase": 0.2, "winners": winners, "schedule": sched, "pvals": ["A", "B"], "xvals": [0.6, -0.5]}
     return case, sim
